@@ -176,8 +176,17 @@ def bvc(v, w):
     return T("BV_CONSTANT", (), (v % (1 << w), w))
 
 
-RESERVED = {"let", "forall", "exists", "!", "_", "as", "par", "match", "true", "false", "not", "and", "or", "xor", "=>",
-            "=", "distinct", "ite"}
+# reserved words of the concrete syntax: usable as symbols only in quoted form
+RESERVED = {"let", "forall", "exists", "!", "_", "as", "par", "match", "BINARY", "DECIMAL", "HEXADECIMAL", "NUMERAL",
+            "STRING"}
+# function symbols of the theories: may not be redeclared, quoted or not (|and| is the symbol and)
+THEORY_SYMBOLS = {"true", "false", "not", "and", "or", "xor", "=>", "=", "distinct", "ite",
+                  "+", "-", "*", "/", "<", "<=", ">", ">=", "to_real", "to_int", "is_int", "div", "mod", "abs",
+                  "select", "store", "concat", "bvnot", "bvneg", "bvand", "bvor", "bvxor", "bvadd", "bvsub", "bvmul",
+                  "bvudiv", "bvurem", "bvsdiv", "bvsrem", "bvsmod", "bvshl", "bvlshr", "bvashr", "bvult", "bvule",
+                  "bvugt", "bvuge", "bvslt", "bvsle", "bvsgt", "bvsge", "bvcomp", "bvnand", "bvnor", "bvxnor",
+                  "str.len", "str.++", "str.at", "str.substr", "str.prefixof", "str.suffixof", "str.contains",
+                  "str.indexof", "str.replace", "str.to_int", "str.from_int"}
 
 
 class Scope(object):
@@ -263,6 +272,13 @@ def parse_sort(sx, script, params=None):
             return ("BV", w)
         if is_sym(sx[0], "Array") and len(sx) == 3:
             return ("ARRAY", parse_sort(sx[1], script, params), parse_sort(sx[2], script, params))
+        if isinstance(sx[0], Atom) and sx[0].kind in ("sym", "qsym"):
+            n = symname(sx[0])
+            ar = script.sort_arity(n)
+            if ar is None:
+                raise SmtError("sort %s is used but not declared" % n)
+            _need(ar == len(sx) - 1, "sort %s expects %d arguments" % (n, ar))
+            return ("CUSTOM", n, tuple(parse_sort(x, script, params) for x in sx[1:]))
         raise SmtError("unsupported sort expression %r" % (sx,), unsupported=True)
     raise SmtError("bad sort %r" % (sx,))
 
@@ -329,6 +345,10 @@ class Reader(object):
             t, so = self.term(sx[1], env)
             for i in range(2, len(sx), 2):
                 _need(isinstance(sx[i], Atom) and sx[i].kind == "kw", "attribute keyword expected")
+                if sx[i].text == ":named":
+                    nm = symname(sx[i + 1])
+                    _need(not self.s.declared_anywhere(nm), "name %s of a :named term is already in use" % nm)
+                    self.s.levels[-1].defs[nm] = ([], so, t, so)
             return t, so
         if isinstance(h, list):
             # ((_ extract i j) t)   ((as const (Array ..)) v)
@@ -512,6 +532,9 @@ class Reader(object):
                 return T("LT", (b, a))
             pairs = [rel(ts[i], ts[i + 1]) for i in range(n - 1)]
             return (pairs[0] if len(pairs) == 1 else T("AND", pairs)), BOOL
+        if f == "pow" and n == 2 and all(s in (INT, REAL) for s in ss):
+            # pySMT extension (documented): constant exponent power
+            return T("POW", ts), ss[0]
         if f == "to_real" and n == 1 and ss[0] == INT:
             return T("TOREAL", ts), REAL
         if f in ("div", "mod", "abs", "to_int", "is_int"):
@@ -644,7 +667,9 @@ def read_script(text):
                 _need(len(c) == 3, "declare-const shape")
                 ps, ret = (), parse_sort(c[2], s)
             _need(not s.declared_anywhere(nm), "symbol %s declared twice" % nm)
-            _need(not (c[1].kind == "sym" and nm in RESERVED), "reserved word %s declared" % nm)
+            _need(not (c[1].kind == "sym" and (nm in RESERVED or nm in KNOWN_COMMANDS)),
+                  "reserved word %s used as a symbol without quotes" % nm)
+            _need(nm not in THEORY_SYMBOLS, "theory symbol %s redeclared" % nm)
             cur.funs[nm] = (ps, ret)
             s.commands.append((name, (nm, ps, ret)))
         elif name == "define-fun":
